@@ -14,8 +14,9 @@ Class names (first component of the configuration name, so that a known-findings
     catrep  Cat / Replicate / slices of expressions on the right
     lhs     slices / Cat on the left
     constblk comb targets assigned only constants through slices/If/Case  (candidate bb)
-    ctl     If / Elif / Else, Case (with/without default, signed test), Array read / write
-    d2      depth-2 expressions where sizing matters                       (h1 / h2 gaps live here)
+    ctl_if / ctl_case / ctl_arr   If / Elif / Else; Case (with/without default, signed test); Array read / write
+    d2_<inner>  depth-2 expressions where sizing matters, one class per inner node kind (add sub mul shl shr mux sl cat
+            neg inv cmp and)                                               (h1 / h2 gaps live here)
 """
 import fsmc  # noqa: F401
 from migen import *
@@ -199,14 +200,17 @@ def cls_catrep(ic, tier):
     return comb_frags(ex, tier)
 
 
-def cls_d2(ic, tier):
-    """depth 2 where sizing matters: an arithmetic/shift/Mux/slice/Cat node under a shift, comparison, Mux, slice, Cat,
-    arithmetic"""
+D2_INNER = ["add", "sub", "mul", "shl", "shr", "mux", "sl", "cat", "neg", "inv", "cmp", "and"]
+
+
+def cls_d2(ic, tier, which):
+    """depth 2 where sizing matters: an arithmetic/shift/Mux/slice/Cat node (`which`, one class per inner node kind so
+    that a known finding can name it) under a shift, comparison, Mux, slice, Cat, arithmetic"""
     wa, sa, wb, sb = ic
     inner = [OP("+", A, B), OP("-", A, B), OP("*", A, B), OP("<<<", A, Cc), OP(">>>", A, K(1)), OP("m", C0, A, B),
              SL(A, 0, 2) if wa >= 2 else BIT(A, 0), CAT(A, BIT(B, 0)), OP("-", A), OP("~", A), OP("<", A, B), OP("&", A, B)]
     ex = []
-    for x in inner:
+    for x in [inner[D2_INNER.index(which)]]:
         ex += [OP(">>>", x, K(1)), OP(">>>", x, Cc), OP("<<<", x, K(1)), OP("==", x, B), OP("==", B, x), OP("<", x, B), OP(">=", B, x),
                OP("m", C0, x, B), OP("m", x, A, B), BIT(x, 0), CAT(x, A), OP("+", x, A), OP("+", B, x), OP("-", B, x), OP("*", x, B),
                OP("-", x), OP("~", x), OP("|", x, B), REP(x, 2), OP("<<<", A, SL(x, 0, 1))]
@@ -309,7 +313,13 @@ def cls_constblk(ic, tier):
     return fr
 
 
-def cls_ctl(ic, tier):
+def cls_ctl(ic, tier, part):
+    """part: "if" (If/Elif/Else), "case" (Case with/without default, signed test, expression test), "arr" (Array read/write)"""
+    keep = {"if": ("If(",), "case": ("Case(",), "arr": ("Array[",)}[part]
+    return [f for f in _cls_ctl_all(ic, tier) if f[0].startswith(keep) or (part == "arr" and "<=Array[" in f[0])]
+
+
+def _cls_ctl_all(ic, tier):
     wa, sa, wb, sb = ic
     E1 = [A, OP("+", A, B), K(-3), OP("-", B)]
     fr = []
@@ -381,7 +391,11 @@ def cls_ctl(ic, tier):
 
 
 COMB_CLASSES = {"arith": cls_arith, "kpos": cls_kpos, "kneg": cls_kneg, "ksig": cls_ksig, "slop": cls_slop,
-                "catsig": cls_catsig, "catrep": cls_catrep, "d2": cls_d2, "lhs": cls_lhs, "constblk": cls_constblk, "ctl": cls_ctl}
+                "catsig": cls_catsig, "catrep": cls_catrep, "lhs": cls_lhs, "constblk": cls_constblk}
+for _w in D2_INNER:
+    COMB_CLASSES["d2_" + _w] = (lambda ic, tier, _w=_w: cls_d2(ic, tier, _w))
+for _p in ("if", "case", "arr"):
+    COMB_CLASSES["ctl_" + _p] = (lambda ic, tier, _p=_p: cls_ctl(ic, tier, _p))
 
 
 class CombProg(Module):
